@@ -1,6 +1,6 @@
 CONSTANTS
   MaxLen = 3
-  ContOpts <- ContOptsMain
+  ContOpts <- ContOptsTwo
   Envs <- EnvsOne
 SPECIFICATION Spec
 INVARIANTS
